@@ -79,8 +79,10 @@ pub fn record(out: &str, n: usize) {
             let rb = v::record(30_000, true, false, move || asca::run(&g2, &[w2], &[], &f2));
             let (ea, eb) = (apply_ids(&ra.events, &mut it), apply_ids(&rb.events, &mut it));
             let oka = matches!(ra.result, Ok(Ok(_))); let okb = matches!(rb.result, Ok(Ok(_)));
-            let keya = match &ra.result { Ok(Ok(_)) => "ok".to_string(), Ok(Err(e)) => err_key(e), Err(p) => format!("PANIC {}", panic_text(p)) };
-            let keyb = match &rb.result { Ok(Ok(_)) => "ok".to_string(), Ok(Err(e)) => err_key(e), Err(p) => format!("PANIC {}", panic_text(p)) };
+            let pk = |p: &Box<dyn std::any::Any + Send>| if p.downcast_ref::<v::BudgetExhausted>().is_some() { "BUDGET".to_string() } else { format!("PANIC {}", panic_text(p)) };
+            let keya = match &ra.result { Ok(Ok(_)) => "ok".to_string(), Ok(Err(e)) => err_key(e), Err(p) => pk(p) };
+            let keyb = match &rb.result { Ok(Ok(_)) => "ok".to_string(), Ok(Err(e)) => err_key(e), Err(p) => pk(p) };
+            if keya == "BUDGET" || keyb == "BUDGET" { sum.count("step_budget_exhausted (C02's domain)", 1); continue; }
             sum.vectors += 1; if ea.len() > 1 { sum.nontrivial += 1; }
             w.put(json!({"kind": "rom", "a": ea, "b": eb, "same": keya == keyb || (oka && !okb && keyb.starts_with("Alias"))}),
                   json!({"kind": "rom", "rules": rules, "word": wt, "romanisers": from, "without": keya, "with": keyb, "out_without": format!("{:?}", ra.result.as_ref().ok().and_then(|r| r.as_ref().ok())), "out_with": format!("{:?}", rb.result.as_ref().ok().and_then(|r| r.as_ref().ok()))}));
@@ -105,8 +107,9 @@ pub fn record(out: &str, n: usize) {
             let ra = v::record(30_000, false, false, move || asca::run(&g1, &[w1], &[], &[]));
             let (g2, w2, i2) = (groups.clone(), enc.clone(), into.clone());
             let rb = v::record(30_000, false, false, move || asca::run(&g2, &[w2], &i2, &[]));
-            let key = |r: &std::thread::Result<Result<Vec<String>, asca::Error>>| match r { Ok(Ok(o)) => format!("ok {:?}", o), Ok(Err(e)) => err_key(e), Err(p) => format!("PANIC {}", panic_text(p)) };
+            let key = |r: &std::thread::Result<Result<Vec<String>, asca::Error>>| match r { Ok(Ok(o)) => format!("ok {:?}", o), Ok(Err(e)) => err_key(e), Err(p) => if p.downcast_ref::<v::BudgetExhausted>().is_some() { "BUDGET".to_string() } else { format!("PANIC {}", panic_text(p)) } };
             let (ka, kb) = (key(&ra.result), key(&rb.result));
+            if ka == "BUDGET" || kb == "BUDGET" { sum.count("step_budget_exhausted (C02's domain)", 1); continue; }
             sum.vectors += 1; if plain != enc { sum.nontrivial += 1; }
             w.put(json!({"kind": "derom", "a": [], "b": [], "same": ka == kb}), json!({"kind": "derom", "rules": rules, "plain": plain, "encoded": enc, "deromanisers": into, "plain_result": ka, "encoded_result": kb}));
         }
